@@ -222,6 +222,12 @@ def eval_history(state, arg):
                 res["features"].append("path_reused")
             open(src_path, "wb").write(data)
             buf = io.BytesIO(data)
+            if kind == "bytesio" and rng.random() < 0.5:
+                # a buffer that was just filled with write() (or already read once): its position is at the end;
+                # an in-memory input gives the same values wherever its position is (round-10 seed
+                # C14-private-copy-of-stream-from-position)
+                buf.seek(0, 2) if rng.random() < 0.6 else buf.seek(rng.randrange(1, max(2, len(data))))
+                res["features"].append("stream_not_at_start")
             src = {"str": src_path, "path": Path(src_path), "bytesio": buf}[kind]
             gc.collect()
             fd0 = n_fds()
